@@ -9,6 +9,8 @@ From DS Require Import Base.C13_Exn Gen.C13_ExcSpec Model.C13_Common Model.C13_X
 From DS Require Import Base.C04_Text Base.C04_Decimal Model.C04_Fmt Model.C12_Conc.
 From Coq Require Import Ascii String.
 Import ListNotations.
+Close Scope N_scope.
+Open Scope nat_scope.
 
 Arguments catches : simpl never.
 
@@ -299,3 +301,62 @@ Section NoCell.
     cbn [fst] in H. rewrite Hc in H. discriminate.
   Qed.
 End NoCell.
+
+(* ---- the same two reader lemmas after a prefix of skipped records (blank lines, `#` comments) -------- *)
+Definition skipped (l : str) : bool := match split_ws l with [] => true | w :: _ => str_eqb w (S2L "#") end.
+
+Lemma leading_skipped : forall pre l0 rest w ws, forallb skipped pre = true -> split_ws l0 = w :: ws -> str_eqb w (S2L "#") = false ->
+  let lf := map c_split (map L2S (pre ++ l0 :: rest)) in
+  count_leading skip_field lf = List.length pre /\ nth_error lf (List.length pre) = Some (map L2S (w :: ws)).
+Proof.
+  induction pre as [| p pre IH]; intros l0 rest w ws Hp Hs Hh; cbn [app map List.length count_leading nth_error].
+  - rewrite c_split_L2S, Hs. cbn [map skip_field]. rewrite eqb_L2S, Hh. split; reflexivity.
+  - cbn [forallb] in Hp. apply andb_true_iff in Hp. destruct Hp as [Hp1 Hp2].
+    destruct (IH l0 rest w ws Hp2 Hs Hh) as [I1 I2]. cbn zeta in I1, I2.
+    assert (Hsk : skip_field (c_split (L2S p)) = true).
+    { rewrite c_split_L2S. unfold skipped in Hp1. destruct (split_ws p) as [| w0 r0]; [reflexivity |]. cbn [map skip_field]. rewrite eqb_L2S. exact Hp1. }
+    rewrite Hsk, I1. split; [reflexivity | exact I2].
+Qed.
+
+Lemma xyz_rejects_after_skipped : forall pre l0 rest w ws,
+  forallb skipped pre = true -> split_ws l0 = w :: ws -> str_eqb w (S2L "#") = false -> (ws <> [] \/ parse_int w = None) ->
+  conc_xyz (pre ++ l0 :: rest) = Raise FormatError.
+Proof.
+  intros pre l0 rest w ws Hp Hs Hh Hw. unfold conc_xyz, parse_xyz.
+  destruct (leading_skipped pre l0 rest w ws Hp Hs Hh) as [Hc Hn]. cbn zeta in Hc, Hn. rewrite Hc.
+  unfold xyz_header, idx. rewrite Hn. cbn [bind nth_error map List.length].
+  destruct ws as [| w2 ws'].
+  - destruct Hw as [Hw | Hw]; [congruence |]. cbn [map List.length Nat.eqb]. rewrite c_int_L2S, Hw. cbn [bind].
+    vm_compute. reflexivity.
+  - cbn [map List.length Nat.eqb]. vm_compute. reflexivity.
+Qed.
+
+Lemma rawxyz_rejects_after_skipped : forall pre l0 rest w ws la wa,
+  forallb skipped pre = true -> split_ws l0 = w :: ws -> str_eqb w (S2L "#") = false ->
+  In la (l0 :: rest) -> split_ws la = [wa] ->
+  rejected (conc_rawxyz (pre ++ l0 :: rest)).
+Proof.
+  intros pre l0 rest w ws la wa Hp Hs Hh Hla Hsa.
+  apply documented_not_ok_rejected; [apply rawxyz_documented |].
+  intros n H. unfold conc_rawxyz, parse_rawxyz in H.
+  destruct (leading_skipped pre l0 rest w ws Hp Hs Hh) as [Hstart Hlf0]. cbn zeta in Hstart, Hlf0.
+  set (lines := map L2S (pre ++ l0 :: rest)) in *. set (lf := map c_split lines) in *.
+  rewrite Hstart in H.
+  destruct (trim_stop (S (List.length lines)) lf (List.length pre) (List.length lines)) as [stop |] eqn:Et; cbn [bind] in H; [| discriminate].
+  assert (Hstop : List.length pre < stop).
+  { eapply trim_lower; [exact Et | exact Hlf0 | reflexivity | unfold lines; rewrite map_length, app_length; cbn; lia | lia]. }
+  destruct (Nat.leb stop (List.length pre)) eqn:El; [apply Nat.leb_le in El; lia |].
+  unfold idx in H. rewrite Hlf0 in H. cbn [bind] in H.
+  destruct (mapM (isfloat dec c_float) (map L2S (w :: ws))) as [ff |]; cbn [bind] in H; [| discriminate].
+  set (nf := List.length (map L2S (w :: ws))) in *.
+  destruct (Nat.eqb nf 3 || Nat.eqb nf 4) eqn:E34; cbn [negb] in H; [| discriminate].
+  assert (Hnf : nf <> 1) by (intros E1; rewrite E1 in E34; discriminate).
+  match type of H with bind ?lay _ = _ => destruct lay as [layout |]; cbn [bind] in H; [| discriminate] end.
+  apply try_reraise_ok in H.
+  destruct (foldM_ok_all _ _ _ _ _ _ H (c_split (L2S la))) as [s1 [s2 Hrow]].
+  { unfold lf, lines. rewrite !map_app.
+    replace (List.length pre) with (List.length (map c_split (map L2S pre))) by (rewrite !map_length; reflexivity).
+    rewrite skipn_app, skipn_all, Nat.sub_diag. cbn [skipn app]. apply in_map. apply in_map. exact Hla. }
+  rewrite c_split_L2S, Hsa in Hrow. unfold rawxyz_record in Hrow. cbn [map is_nil List.length] in Hrow.
+  destruct (Nat.eqb 1 nf) eqn:E1; [apply Nat.eqb_eq in E1; congruence |]. discriminate.
+Qed.
